@@ -5,7 +5,9 @@ from .common import BASES, FUNCS, PARAMS, basename, uniquify, rnd_args
 
 ID = "C05"
 ALLOWED_AXIOMS = []
-RULE = ("random edit histories (length 1-25, thorough up to 40) over {insertSegment at any position incl. -1 with "
+RULE = ("thorough tier additionally enumerates EXHAUSTIVELY all 7381 histories of length <= 4 over a fixed 9-op alphabet "
+        "(3 inserts with clashing names, 2 removes, changeArg, changeDuration, setSegmentMarker, self-concatenation); "
+        "random edit histories (length 1-25, thorough up to 40) over {insertSegment at any position incl. -1 with "
         "given/omitted/empty name, removeSegment, changeArg by name/position (+replaceeverywhere), changeDuration, "
         "set/removeSegmentMarker, copy, +, and the Element-delegated edits}, names from overlapping bases (bases "
         "containing digits, a function whose __name__ ends in a digit), functions of 1, 2 and 4 user arguments and "
@@ -17,11 +19,32 @@ TRUST = ["C05 statement oracle (harness/props/c05.py): checks the k-th-occurrenc
          "condition on the implementation's own descriptions, independent of the model"]
 
 
+ALPHABET = [
+    ("BInsert", 0, 0, "ramp", [0, 1], 1, "a"), ("BInsert", 0, -1, "sine", [1, 1, 0, 0], 1, None),
+    ("BInsert", 0, 1, "ua", [1], 1, "a"), ("BRemove", 0, "a"), ("BRemove", 0, "a2"),
+    ("BChangeArg", 0, "a", 0, 7, False), ("BChangeDur", 0, "a2", 0.5, False), ("BSetSegMarker", 0, "a", (0, 0.1), 1),
+    ("BAdd", 0, 0, 0),
+]
+
+
+def exhaustive(maxlen):
+    """Every history of length <= maxlen over the 9-op alphabet, the description observed after every op."""
+    import itertools
+    for n in range(0, maxlen + 1):
+        for seq in itertools.product(ALPHABET, repeat=n):
+            prog = [("BNew", 0), ("OBDescr", 0)]
+            for op in seq:
+                prog += [op, ("OBDescr", 0)]
+            yield {"prog": prog, "kind": "exhaustive"}
+
+
 def generate(rng, tier):
     n_cases = 220 if tier == "quick" else 4000
     maxlen = 25 if tier == "quick" else 40
     for ci in range(n_cases):
         yield gen_case(rng, rng.randint(1, maxlen), ci)
+    if tier == "thorough":
+        yield from exhaustive(4)
 
 
 def gen_case(rng, length, ci):
